@@ -1,28 +1,7 @@
 #!/bin/bash
-# setup_cmd: regenerate harness/go.mod + go.sum from /repo's go.mod (same replace blocks),
-# then warm the build cache. Offline only.
-set -euo pipefail
+# setup_cmd: build the framework offline from files on disk (warms the Go build cache).
+set -uo pipefail
 cd "$(dirname "$0")"
 . ./env.sh
-REPO="${VERIF_REPO:-/repo}"
-gen_gomod() {
-  local out="$1" repo="$2"
-  {
-    echo "module verif/harness"
-    echo
-    echo "go 1.23"
-    echo
-    echo "require github.com/functionx/fx-core/v8 v8.0.0"
-    echo
-    echo "replace github.com/functionx/fx-core/v8 => $repo"
-    echo
-    # copy the repo's own replace blocks verbatim
-    awk '/^replace \(/{p=1} p{print} /^\)/{if(p){p=0;print ""}}' "$repo/go.mod"
-    awk '/^replace [^(]/{print}' "$repo/go.mod"
-  } > "$out"
-}
-gen_gomod harness/go.mod "$REPO"
-cp "$REPO/go.sum" harness/go.sum
-(cd harness && go mod tidy >/dev/null 2>&1 || true)
-# warm build (non-fatal: check.sh builds again anyway)
-./check.sh --build-only || true
+cmp -s /repo/go.sum harness/go.sum || cp /repo/go.sum harness/go.sum
+./check.sh --build-only
